@@ -335,6 +335,10 @@ def decode_provenance(analysis: Analysis, enc_default):
     # failure discipline: every decoding failure surfaces as ValueError (caught by the dispatcher)
     bad = [o for o in outs if o[0] == "raise" and not issubclass(o[2].cls, ValueError)]
     rows.append(("decode: malformed lines raise ValueError only", not bad, w_dec, "all failing paths raise ValueError" if not bad else f"{bad[0][2].cls.__name__}: {bad[0][2].what}"))
+    # ... and a line is rejected only by the field count or by int() itself: a test of the decoder's own
+    # (isdigit, range, length) rejects frames the encoder produces (negative or large header values)
+    own = sorted({f"{o[2].site}: {o[2].what}" for o in outs if o[0] == "raise" and "explicit raise" in (o[2].what or "") and o[2].site.startswith(info.qual.split(".")[0])})
+    rows.append(("decode: a line is rejected only by its field count or by int()", not own, w_dec, "no rejection test of the decoder's own" if not own else f"the decoder raises on a condition of its own ({own[0][:90]}): lines that int() accepts - e.g. a negative header field, which encode() produces - no longer decode"))
     return rows
 
 
